@@ -40,6 +40,7 @@ THEOREMS = [
     "LC.include_self_now_transparent",
     "LC.wrapper_not_transparent_posonly_kwargs",
     "LC.wrapper_not_transparent_posonly_keyword",
+    "LC.wrapper_not_transparent_call_capture",
     "LC.wrapper_transparent_false",
     "LC.start_fields_are_bound_args_partial",
     "LC.start_fields_not_bound_args_task_level",
@@ -59,7 +60,7 @@ RULE = ("calls = generated signature (0-6 parameters over the five kinds, defaul
         "non-trivial = signature with >= 2 parameter kinds; distinct by canonical hash of (sig, form, opts, args, body)")
 TRUSTED = ["CPython's argument binding, inspect.getcallargs and boltons.funcutils.wraps are modelled and compared on every case, not verified",
            "exec-generated functions stand for all functions; argument values are None/int/str atoms (the wrapper only tests `is None`)"]
-ASSUMPTIONS = ["partial theorems: the three binders agree on the call (bindingAgrees, evaluated; implied by `no keyword spelled like a "
+ASSUMPTIONS = ["partial theorems: no parameter is called _call (the name boltons' generated function uses for the wrapper); the three binders agree on the call (bindingAgrees, evaluated; implied by `no keyword spelled like a "
                "positional-only parameter` on every generated call); for the start fields additionally no parameter is named like one of the "
                "five keys Action._start writes itself (noStructural)",
                "logging itself does not raise (C07)"]
@@ -67,10 +68,11 @@ EXPLANATION = ("transparency / start fields proved under explicit decidable hypo
                "end-result and default action type proved at full strength; model tied to the real decorated/undecorated pair per call")
 
 NEUTRAL = ["x", "y", "z", "a", "b", "c", "n", "w"]
-SOFT = ["result", "args", "kwargs", "message_type", "exception", "reason", "self"]
+SOFT = ["result", "args", "kwargs", "message_type", "exception", "reason", "self", "_func", "wrapped_function", "include_args"]
 COLLIDE = ["logger", "action_type", "_serializers"]
 STRUCT = ["task_level", "timestamp", "task_uuid", "action_status"]  # + action_type: overwritten too since 6098461
-HOT = COLLIDE + STRUCT
+CAPTURED = ["_call"]   # the name boltons' generated outer function uses for the wrapper it calls (`_func` is bound too, but unused)
+HOT = COLLIDE + STRUCT + CAPTURED
 STRUCT_KEYS = ["action_status", "timestamp", "task_uuid", "action_type", "task_level"]
 KINDS = ["posOnly", "posOrKw", "varPos", "kwOnly", "varKw"]
 RANK = {k: i for i, k in enumerate(KINDS)}
@@ -232,6 +234,7 @@ class _Helper:
         self.raise_ = False
         self.exc = None
         self.ret = None
+        self.last = None
 
     @staticmethod
     def freeze(v):
@@ -292,7 +295,8 @@ def source(case, decorated):
         "    _l = dict(locals())",
         "    _H.rec.append(_l)",
         "    if _H.raise_: raise _H.exc",
-        "    return ('ret', _H.ret, tuple(sorted(((k, _H.freeze(v)) for k, v in _l.items()), key=lambda kv: kv[0])))",
+        "    _H.last = ('ret', _H.ret, tuple(sorted(((k, _H.freeze(v)) for k, v in _l.items()), key=lambda kv: kv[0])))",
+        "    return _H.last",
     ]
     form = case["form"]
     if form == "function":
@@ -337,8 +341,9 @@ def run_call(H, call, case, msgs):
     H.exc = BodyError("boom")
     H.ret = case["body"]["ret"]
     try:
+        H.last = None
         v = call(case["pos"], dict((k, v) for k, v in case["kw"]))
-        out = {"ret": v}
+        out = {"ret": v, "identical": v is H.last}
     except BaseException as e:  # noqa
         out = {"raised": type(e).__name__, "from_body": e is H.exc, "text": str(e)[:200]}
     out["rec"] = [dict(r) for r in H.rec]
@@ -369,7 +374,7 @@ def observe(case, msgs):
             impl = [] if impl_d is None else [impl_d]
             obs["raw"] = run_call(Hd, (lambda pos, kw: lw(*(impl + list(pos)), **kw)), case, msgs)
         meta = {}
-        for attr in ("__name__", "__doc__", "__module__"):
+        for attr in ("__name__", "__doc__", "__module__", "__qualname__"):
             meta[attr] = [getattr(fd, attr, None), getattr(fu, attr, None)]
         try:
             meta["signature"] = [str(inspect.signature(fd)), str(inspect.signature(fu))]
@@ -436,6 +441,8 @@ def check_case(case, obs):
             fails.append(("transparency", "undecorated call returns, decorated call raises %s (%s)" % (d["raised"], d["text"]), {}))
         elif not same_value(u["ret"], d["ret"]):
             fails.append(("transparency", "decorated call returns %r, undecorated %r" % (d["ret"], u["ret"]), {}))
+        elif not d.get("identical", True):
+            fails.append(("transparency", "decorated call returns an equal value but not the object the function returned", {}))
     else:
         if "ret" in d:
             fails.append(("transparency", "undecorated call raises %s, decorated call returns" % u["raised"], {}))
@@ -492,9 +499,11 @@ def check_case(case, obs):
             fails.append(("action-type", "action_type%s is %r, expected %r" % (where, start.get("action_type"), want_type), {}))
     # O6 metadata
     meta = obs["meta"]
-    for attr in ("__name__", "__doc__"):
+    for attr in ("__name__", "__doc__", "__module__"):
         if meta[attr][0] != meta[attr][1]:
             fails.append(("metadata", "%s not preserved: %r vs %r" % (attr, meta[attr][0], meta[attr][1]), {}))
+    if meta["__qualname__"][0] != meta["__qualname__"][1]:
+        fails.append(("metadata-qualname", "__qualname__ not preserved: %r vs %r" % tuple(meta["__qualname__"]), {}))
     if not meta["signature_eq"]:
         fails.append(("metadata", "inspect.signature not preserved: %s vs %s" % tuple(meta["signature"]), {}))
     for what in ("argspec", "__defaults__", "__kwdefaults__", "getcallargs"):
@@ -542,6 +551,8 @@ def variants(case):
 
 def attribute(case, oracle, detail, msgs):
     """key of a failed oracle: the single cause whose removal makes this oracle pass again"""
+    if oracle == "metadata-qualname":
+        return {"metadata": "__qualname__"}
     for frag, c2 in variants(case):
         try:
             f2 = check_case(c2, observe(c2, msgs))
@@ -551,6 +562,8 @@ def attribute(case, oracle, detail, msgs):
             key = dict(frag)
             if "param_name" in key and oracle == "start-fields":
                 key["effect"] = detail.get("effect", "start-fields")
+            elif key.get("param_name") in CAPTURED and oracle == "transparency":
+                key["effect"] = "outer-function-name-capture"
             elif oracle not in ("transparency", "start-fields"):
                 key["oracle"] = oracle
             return key
@@ -680,6 +693,8 @@ def diff(ctx, case, obs, mo):
             cmp("decorated-body-locals", len(rec), 0)
         if "raw" in obs and st is None:
             cmp("logging_wrapper", enc_run(obs["raw"]), strip_model_run(mo["wrapper"]))
+    if mo["wf"] and mo["posOnlyRespected"] and not mo["capturesCall"] and not (st or mo)["transparent"]:
+        bad.append(("transparency-characterisation", "not transparent", "posOnlyRespected and no parameter called _call"))
     if mo["wf"] and mo["posOnlyRespected"] and not mo["bindingAgrees"]:
         bad.append(("binding-characterisation", "bindingAgrees=%s" % mo["bindingAgrees"], "posOnlyRespected=%s" % mo["posOnlyRespected"]))
     if bad:
@@ -713,6 +728,8 @@ def gen_cases(ctx):
     cases += [
         dict(base, sig=[dict(name="action_type", kind="posOrKw"), dict(name="x", kind="posOrKw", default=1)], pos=[5], hot="action_type"),
         dict(base, sig=[dict(name="logger", kind="posOrKw")], pos=[7], hot="logger"),
+        dict(base, sig=[dict(name="_call", kind="posOrKw")], pos=[5], hot="_call"),
+        dict(base, sig=[dict(name="x", kind="posOrKw"), dict(name="_call", kind="kwOnly", default=1)], pos=[5], hot="_call"),
         dict(base, sig=[dict(name="_serializers", kind="posOrKw")], pos=[7], hot="_serializers"),
         dict(base, sig=[dict(name="a", kind="posOnly"), dict(name="kw", kind="varKw")], pos=[1], kw=[["a", 2]], call="valid-posonly-name-in-kwargs"),
         dict(base, sig=[dict(name="a", kind="posOnly")], pos=[], kw=[["a", 2]], call="invalid-posonly-by-keyword"),
